@@ -9,6 +9,10 @@ VK_NOTE = ("trusted: the virtual kernel model (vk/kernel.hpp, vk/ops.hpp; bound 
            "oracle; the programs are the unmodified binaries built from /repo's working tree by its own Makefile")
 DAEMON_NOTE = VK_NOTE + "; spawners are controller scripts on the daemon's pipes (their own code is covered by C09/C11/C18), time is a virtual clock"
 CHECKS = {
+ "C17": dict(engine="SEQ", category="exploration", design_ref="4/C17",
+             technique="bounded-exhaustive enumeration of local parts (23-byte alphabet of all specials, length <=4/5) through quote2 -> token822 parse/addrlist/unquote and addrmangle -> addrparse round trips; grammar-template address lists with mailboxes known by construction through the real qmail-inject (recording queue stand-in, VK engine) for all modes, with re-injection of the rewritten header",
+             text="Agreement of quoter and parser is a for-all-strings property and envelope derivation a for-all-headers property; all strings of the bounded alphabet and all compositions of the grammar templates up to the bound are executed on the real functions/program and compared with the identity / the constructed mailboxes.",
+             note=SEQ_NOTE + "; " + VK_NOTE),
  "C07": dict(engine="VK", category="fault_enumeration", design_ref="4/C07",
              technique="exhaustive enumeration, on the real qmail-smtpd/qmail-qmtpd/qmail-qmqpd with the real qmail.c under the virtual kernel, of every queue-program exit status 0..255 (+82 texts, crash, real qmail-queue), a client disconnect after every byte, size/hop/address-length/NUL/framing boundary cases, multi-message QMTP connections and every hostile peer string up to length 3-4; acknowledgement compared with what a recording queue stand-in committed",
              text="'Never say 250/K unless queued' must hold for every failure point; every exit status, every cut point and every boundary case is executed on the real daemons and the acknowledgement is compared with the bytes the queue program actually committed.",
